@@ -191,6 +191,7 @@ class Repo:
 
     def _index_class(self, m, node):
         c = ClassInfo(m, node.name, node)
+        c.annotations = [(st.target.id, st.value) for st in node.body if isinstance(st, ast.AnnAssign) and isinstance(st.target, ast.Name)]
         for stmt in node.body:
             if isinstance(stmt, (ast.FunctionDef, ast.AsyncFunctionDef)):
                 decs = [ast.unparse(d) for d in stmt.decorator_list]
@@ -252,8 +253,10 @@ class Repo:
 
     def get(self, key):
         """'cobald.x.y:Class.method' / ':Class.prop.getter' / ':func' / ':outer.<locals>.inner' (first-level only)"""
-        modname, qual = key.split(":")
-        m = self.modules[modname]
+        modname, qual = key.split(":", 1)
+        m = self.modules.get(modname)
+        if m is None:
+            return None
         parts = qual.split(".")
         b = m.bindings.get(parts[0])
         if isinstance(b, FunctionInfo):
